@@ -267,4 +267,7 @@ def run(chk, tier):
         else:
             chk.expect(len(calls) == 1, "extend-truncate", "truncate", v, "l.truncate(limit)", len(calls), loc=C.fn_loc(h))
     extend_appends(chk, fx)
+    # the object-level Push* operations must hand the number over unconverted (exactness of PushU32(3_000_000_000) and the like)
+    from . import c13
+    c13.push_plumbing(chk, fx)
     chk.undecided.append("numeric exactness inside NumCast::from / str::parse (trusted); extend_* numeric casts are documented as lossy and out of the property")
